@@ -137,10 +137,10 @@ func c02Counts(tier string) (int, int) {
 	enum := nv * (1 << (2 * n))
 	if tier == "thorough" {
 		enum += nv * 15625 // 5 actions ^ (3+3)
-		return enum, 400000
+		return enum, 100000000
 	}
 
-	return enum, 60000
+	return enum, 10000000
 }
 
 var c02Actions = []int{ActDeliver, ActDrop, ActDup, ActHoldN | 1<<8, ActHoldN | 3<<8}
@@ -289,10 +289,10 @@ func c02Run(rc *RunCtx, params any) {
 	rc.R.NonTriv = faults > 0
 	switch {
 	case !pair.BothDone():
-		rc.Violate("stall:"+v.Name, "handshake did not complete within %v after the last fault (t=%v): client done=%v err=%v, server done=%v err=%v",
+		rc.Violate(fmt.Sprintf("stall:%s:c@%s:s@%s", v.Name, pair.Env.FSMState("c"), pair.Env.FSMState("s")), "handshake did not complete within %v after the last fault (t=%v): client done=%v err=%v, server done=%v err=%v",
 			c02Bound, n.LastFaultAt, pair.CHs.Done, pair.CHs.Err, pair.SHs.Done, pair.SHs.Err)
 	case !pair.BothOK():
-		rc.Violate("fail:"+v.Name, "handshake failed under benign faults: client err=%v, server err=%v", pair.CHs.Err, pair.SHs.Err)
+		rc.Violate(fmt.Sprintf("fail:%s:c=%s:s=%s", v.Name, errClass(pair.CHs.Err), errClass(pair.SHs.Err)), "handshake failed under benign faults: client err=%v, server err=%v", pair.CHs.Err, pair.SHs.Err)
 	default:
 		lat := pair.CHs.At
 		if pair.SHs.At > lat {
@@ -304,6 +304,19 @@ func c02Run(rc *RunCtx, params any) {
 		}
 	}
 	pair.Teardown()
+}
+
+// errClass reduces an error to a stable class for violation signatures.
+func errClass(err error) string {
+	if err == nil {
+		return "ok"
+	}
+	m := err.Error()
+	if len(m) > 60 {
+		m = m[:60]
+	}
+
+	return m
 }
 
 func bucket(x int) int {
